@@ -1,9 +1,122 @@
-/- Driver handlers, group Fourier (stub; filled in by the group's model). -/
+/-
+  Driver handlers, group Fourier (C08): the generated model CC/Gen/Fourier.lean evaluated at
+  exact rationals.
+
+  Number type `PQ`: a rational that may be undefined (division by zero, or `cos`/`sin` of an
+  argument the request's table does not contain), carrying the list of trig arguments that
+  were requested but missing — so the harness can ask numpy for exactly those values and
+  call again.  `π` is the exact rational value of binary64 `np.pi` (sent by the harness),
+  float `%` is `CC.Fourier.fmodQ`.
+-/
 import CC.Driver.Json
 import CC.Driver.LinAlg
+import CC.Gen.Fourier
 namespace CC
-open Lean
+open Lean CC.Gen.Fourier
 
-def handlersFourier : List (String × Handler) := []
+structure PQ where
+  v : Option Rat
+  need : List Rat := []
+
+namespace PQ
+def lift2 (f : Rat → Rat → Option Rat) (a b : PQ) : PQ :=
+  ⟨(do f (← a.v) (← b.v)), a.need ++ b.need⟩
+instance : Add PQ := ⟨lift2 fun x y => some (x + y)⟩
+instance : Sub PQ := ⟨lift2 fun x y => some (x - y)⟩
+instance : Mul PQ := ⟨lift2 fun x y => some (x * y)⟩
+instance : Div PQ := ⟨lift2 fun x y => if y = 0 then none else some (x / y)⟩
+instance : Neg PQ := ⟨fun a => ⟨a.v.map (- ·), a.need⟩⟩
+instance : IntCast PQ := ⟨fun i => ⟨some (i : Rat), []⟩⟩
+instance : LT PQ := ⟨fun a b => match a.v, b.v with | some x, some y => x < y | _, _ => False⟩
+instance : DecidableLT PQ := fun a b => by
+  show Decidable (match a.v, b.v with | some x, some y => x < y | _, _ => False)
+  cases a.v <;> cases b.v <;> infer_instance
+def ofRat (r : Rat) : PQ := ⟨some r, []⟩
+/-- table lookup of a trig value; a missing argument is recorded in `need` -/
+def trig (tbl : List (Rat × Rat)) (x : PQ) : PQ :=
+  match x.v with
+  | none => ⟨none, x.need⟩
+  | some a => match tbl.lookup a with
+    | some c => ⟨some c, x.need⟩
+    | none => ⟨none, x.need ++ [a]⟩
+def fmod (x y : PQ) : PQ := lift2 (fun a b => if b = 0 then none else some (CC.Fourier.fmodQ a b)) x y
+def toJson (a : PQ) : Json :=
+  match a.v with
+  | some r => Json.mkObj [("ok", jsonRat r)]
+  | none => Json.mkObj [("err", "undefined"), ("need", Json.arr (a.need.map jsonRat).toArray)]
+end PQ
+
+def getTrig (j : Json) : Except String (List (Rat × Rat) × List (Rat × Rat)) := do
+  match j.getObjVal? "trig" with
+  | .error _ => pure ([], [])
+  | .ok t =>
+    let rows ← t.getArr?
+    let rows ← rows.toList.mapM fun r => do
+      match r with
+      | .arr #[a, c, s] => pure (← getRat a, ← getRat c, ← getRat s)
+      | _ => throw "trig row [arg, cos, sin] expected"
+    pure (rows.map fun (a, c, _) => (a, c), rows.map fun (a, _, s) => (a, s))
+
+def getInt (j : Json) : Except String Int :=
+  match j with
+  | .num n => if n.exponent = 0 then .ok n.mantissa else .error "integer expected"
+  | .str s => match s.toInt? with | some i => .ok i | none => .error "integer expected"
+  | _ => .error "integer expected"
+
+def getWaveObj (j : Json) : Except String (WaveObj PQ) := do
+  let name ← getStr j "cls"
+  match Wave.all.find? (fun w => w.name == name) with
+  | none => throw s!"unknown wave class {name}"
+  | some w =>
+    pure { cls := w, period := PQ.ofRat (← getRatK j "period"), amplitude := PQ.ofRat (← getRatK j "amplitude"),
+           phase := PQ.ofRat (← getRatK j "phase"), offset := PQ.ofRat (← getRatK j "offset") }
+
+/-- op `fourier`: `fourier_series(<cls>(period, amplitude, phase, offset))` and, for every
+requested order `n`, `amplitude/phase/a/b/c (n)` of the model. -/
+def h_fourier : Handler := fun j => do
+  let w ← getWaveObj j
+  let π := PQ.ofRat (← getRatK j "pi")
+  let (ct, st) ← getTrig j
+  let ns ← (← getArr j "ns").toList.mapM getInt
+  match fourierSeries w with
+  | .error e => pure (Json.mkObj [("err", e)])
+  | .ok h =>
+    let cos := PQ.trig ct
+    let sin := PQ.trig st
+    let rows := ns.map fun n =>
+      let c := h.c π cos sin n
+      Json.mkObj [("n", Json.num (JsonNumber.fromInt n)),
+        ("amplitude", (h.amplitude π n).toJson), ("phase", (h.phase π n).toJson),
+        ("a", (h.a π cos sin n).toJson), ("b", (h.b π cos sin n).toJson),
+        ("c_re", c.1.toJson), ("c_im", c.2.toJson)]
+    pure (Json.mkObj [("harm", Json.str h.cls.name), ("rows", Json.arr rows.toArray)])
+
+/-- op `fourier_time`: `<cls>(period, amplitude, phase, offset).time_function(t)` for every `t` -/
+def h_fourierTime : Handler := fun j => do
+  let w ← getWaveObj j
+  let π := PQ.ofRat (← getRatK j "pi")
+  let (ct, st) ← getTrig j
+  let ts ← (← getArr j "ts").toList.mapM getRat
+  let vals := ts.map fun t => (w.timeFunction π (PQ.trig ct) (PQ.trig st) PQ.fmod (PQ.ofRat t)).toJson
+  pure (Json.mkObj [("values", Json.arr vals.toArray)])
+
+/-- op `fourier_lookup`: `periodic_function(wavetype)` -/
+def h_fourierLookup : Handler := fun j => do
+  let s ← getStr j "wavetype"
+  match periodicFunction s with
+  | .ok w => pure (Json.mkObj [("ok", Json.str w.name)])
+  | .error e => pure (Json.mkObj [("err", e)])
+
+/-- op `fourier_tables`: the generated class inventory and mapping -/
+def h_fourierTables : Handler := fun _ => do
+  pure (Json.mkObj [
+    ("waves", Json.arr (Wave.all.map fun w => Json.arr #[Json.str w.name, Json.str w.wavetype]).toArray),
+    ("harms", jsonStrs (Harm.all.map Harm.name)),
+    ("mapping", Json.arr (fourierSeriesMapping.map fun (w, h) => Json.arr #[Json.str w.name, Json.str h.name]).toArray),
+    ("periodic_functions", jsonStrs (periodicFunctions.map Wave.name))])
+
+def handlersFourier : List (String × Handler) :=
+  [("fourier", h_fourier), ("fourier_time", h_fourierTime), ("fourier_lookup", h_fourierLookup),
+   ("fourier_tables", h_fourierTables)]
 
 end CC
